@@ -356,9 +356,13 @@ func (x *l1) waitTimer(i int) bool {
 type recConn struct {
 	fail bool
 	data []byte
+	hook func() // runs inside Write, i.e. while the report is "on the wire"
 }
 
 func (c *recConn) Write(b []byte) (int, error) {
+	if c.hook != nil {
+		c.hook()
+	}
 	if c.fail {
 		return 0, errScripted
 	}
@@ -489,6 +493,94 @@ func runL1(seed uint64, idx int, o *out) (tainted bool) {
 		x.state()
 		return true
 	}
+	// `report i ok|err`: the real reportWouldBlockIfAny of sender i on a scripted connection. `reportpush … <body>`: while the
+	// report is being written (inside conn.Write) a packet is handed to the real handler — with both buffers full that is a
+	// real drop through tcpPool.writeLocked, concurrent with the report.
+	doReport := func(i int, fail bool, during bool) {
+		var body []byte
+		seq := x.nextSeq
+		if during {
+			body = x.mkBody(r, r.Bytes(r.Range(0, 12)), seq)
+			x.nextSeq++
+			o.Op("reportpush %d %s %s", i, map[bool]string{false: "ok", true: "err"}[fail], verifx.Hex(body))
+			o.Stat("l1.op.reportpush", 1)
+		} else {
+			o.Op("report %d %s", i, map[bool]string{false: "ok", true: "err"}[fail])
+			o.Stat("l1.op.report", 1)
+		}
+		pushRes, pushed := -1, false
+		var added int64
+		doPush := func() {
+			pushed = true
+			dropsBefore := x.dropBytes
+			pushRes = x.handle(body, seq)
+			added = x.dropBytes - dropsBefore
+		}
+		conn := &recConn{fail: fail}
+		if during {
+			conn.hook = doPush
+		}
+		pendingBefore := x.dropBytes
+		wbBefore := balancer.VerifWouldBlock(e, 0) + balancer.VerifWouldBlock(e, 1)
+		balancer.VerifReport(e, i, conn)
+		wbAfter := balancer.VerifWouldBlock(e, 0) + balancer.VerifWouldBlock(e, 1)
+		var v int64
+		if len(conn.data) > 0 {
+			var why string
+			if v, why = decodeReport(conn.data, hostTag); v < 0 {
+				o.Viol("l1-report-malformed", "would-block report is not a framed statshouse.addMetricsBatch with one __src_client_write_err value: %s", why)
+				v = 0
+			}
+		}
+		// bytes that are neither pending any more nor announced upstream
+		vanished := wbBefore + added - wbAfter - v
+		switch {
+		case fail && vanished != 0:
+			o.Obs("report-lost %d", vanished) // allowed: the failed write is counted in WriteErrors
+			x.dropBytes -= vanished
+		case len(conn.data) == 0:
+			o.Obs("report none")
+		default:
+			o.Obs("report %d", v)
+			x.dropBytes -= v
+			o.NT("drop-reported")
+		}
+		// ---- direct oracle: every drop is reported upstream — dropped bytes = reported + still pending (+ failed report writes)
+		if !fail && vanished != 0 {
+			if pushed && added > 0 {
+				o.Viol("l1-report-lost-concurrent-drop", "a packet (%d bytes) was dropped with both buffers full while the would-block report (%d bytes) was being written; afterwards wouldBlockBytes=%d: %d dropped bytes are neither pending nor reported", added, v, wbAfter, vanished)
+			} else {
+				o.Viol("l1-report-mismatch", "would-block report of %d bytes: pending before %d, pending after %d: %d dropped bytes are neither pending nor reported", v, wbBefore, wbAfter, vanished)
+			}
+		} else if i == 0 && len(conn.data) > 0 && v != pendingBefore {
+			o.Viol("l1-report-mismatch", "report says %d bytes, %d bytes were dropped since the last report", v, pendingBefore)
+		}
+		if during {
+			if !pushed { // nothing was pending, so nothing was written: the packet arrives right after the report call
+				doPush()
+			}
+			if pushed && added > 0 {
+				o.NT("drop-concurrent-with-report")
+			}
+			o.Obs("push %s", []string{"acc=0", "acc=1", "drop", "ign"}[pushRes])
+			x.settle()
+		}
+		x.state()
+	}
+	// `pick i k`: k real addressPool.pick calls of sender i (what k consecutive reconnect attempts dial)
+	doPick := func(i, k int) {
+		o.Op("pick %d %d", i, k)
+		o.Stat("l1.op.pick", 1)
+		res := make([]string, k)
+		for j := range res {
+			if a, ok := balancer.VerifPick(e, i); ok {
+				res[j] = a
+			} else {
+				res[j] = "x"
+			}
+		}
+		o.Obs("pick %s", strings.Join(res, ","))
+	}
 	anyParked := func() bool {
 		for i := 0; i < 2; i++ {
 			s := x.s[i]
@@ -518,7 +610,10 @@ func runL1(seed uint64, idx int, o *out) (tainted bool) {
 		if timers < maxTimers && anyParked() {
 			cands = append(cands, 40, 40)
 		}
-		cands = append(cands, 50, 51, 52)
+		cands = append(cands, 50, 51, 52, 53, 54, 55)
+		if b0, b1 := balancer.VerifBuf(e, 0), balancer.VerifBuf(e, 1); b0.Wi >= c.BufferLen && b1.Wi >= c.BufferLen {
+			cands = append(cands, 53, 53, 53)
+		}
 		if n > nops-3 && r.Chance(1, 4) {
 			cands = append(cands, 60)
 		}
@@ -577,34 +672,22 @@ func runL1(seed uint64, idx int, o *out) (tainted bool) {
 			o.Obs("stats fwd=%d drop=%d werr=%d", st.ForwardedPackets, st.DroppedPackets, st.WriteErrors)
 			x.state()
 		case op == 51:
-			i := r.Pick(3, 1)
-			fail := r.Chance(1, 5)
-			o.Op("report %d %s", i, map[bool]string{false: "ok", true: "err"}[fail])
-			o.Stat("l1.op.report", 1)
-			conn := &recConn{fail: fail}
-			wbBefore := balancer.VerifWouldBlock(e, 0) + balancer.VerifWouldBlock(e, 1)
-			balancer.VerifReport(e, i, conn)
-			wbAfter := balancer.VerifWouldBlock(e, 0) + balancer.VerifWouldBlock(e, 1)
-			switch {
-			case fail && wbBefore != wbAfter:
-				o.Obs("report-lost %d", wbBefore-wbAfter)
-				x.dropBytes -= wbBefore - wbAfter
-			case len(conn.data) == 0:
-				o.Obs("report none")
-			default:
-				v, why := decodeReport(conn.data, hostTag)
-				if v < 0 {
-					o.Viol("l1-report-malformed", "would-block report is not a framed statshouse.addMetricsBatch with one __src_client_write_err value: %s", why)
-				}
-				o.Obs("report %d", v)
-				// ---- direct oracle: every drop is reported upstream (bytes of all packets dropped since the last report)
-				if i == 0 && v != x.dropBytes {
-					o.Viol("l1-report-mismatch", "report says %d bytes, %d bytes were dropped since the last report", v, x.dropBytes)
-				}
-				x.dropBytes -= v
-				o.NT("drop-reported")
+			doReport(r.Pick(3, 1), r.Chance(1, 5), false)
+		case op == 53:
+			doReport(r.Pick(5, 1), r.Chance(1, 6), true)
+		case op == 54:
+			i := r.Intn(2)
+			n := r.Range(0, 4)
+			addrs := make([]string, n)
+			for k := range addrs {
+				addrs[k] = fmt.Sprint(k)
 			}
-			x.state()
+			o.Op("setpool %d %d", i, n)
+			o.Stat("l1.op.setpool", 1)
+			balancer.VerifSetPool(e, i, addrs)
+			doPick(i, r.Range(1, 2*n+2))
+		case op == 55:
+			doPick(r.Intn(2), r.Range(1, 6))
 		case op == 52:
 			i := r.Intn(2)
 			o.Op("recon %d", i)
@@ -619,6 +702,13 @@ func runL1(seed uint64, idx int, o *out) (tainted bool) {
 			x.settle()
 			x.state()
 			wantDrain = false
+		}
+	}
+	// buffer-full profile: end with a report that races with a real drop (both buffers full, nobody pops)
+	if profile == 2 && !x.dead && !x.tainted && !x.closed {
+		doBurst(2*c.BufferLen + thr + 5)
+		if !x.dead && !x.tainted {
+			doReport(0, false, true)
 		}
 	}
 	// drain phase: let both senders finish (writes succeed, batch timeouts fire), then check completeness
@@ -692,6 +782,7 @@ type sink struct {
 	key     string
 	partial int // connections that ended inside a frame
 	limit   int // >= 0: stop reading (stall) once the first connection has delivered this many frames
+	ended   int           // connections whose reader has finished (EOF, error, held for good)
 	hold    bool          // with limit: only the first connection stops reading, for good (it is never closed by the sink)
 	done    chan struct{} // closed when the trial is over
 }
@@ -751,6 +842,16 @@ func (s *sink) setStalled(v bool) {
 
 func (s *sink) serve(id int, c net.Conn) {
 	defer c.Close()
+	endedOnce := false
+	markEnded := func() {
+		if !endedOnce {
+			endedOnce = true
+			s.mu.Lock()
+			s.ended++
+			s.mu.Unlock()
+		}
+	}
+	defer markEnded()
 	s.waitUnstalled()
 	key := make([]byte, len(s.key))
 	// a connection may die (or be reset by the scenario) before the handshake arrived: only bytes that differ count
@@ -792,7 +893,8 @@ func (s *sink) serve(id int, c net.Conn) {
 			s.limit = -1
 			if s.hold {
 				s.mu.Unlock()
-				<-s.done // a stalled peer: alive, not reading, not closing
+				markEnded() // nothing more will ever be read from this connection
+				<-s.done    // a stalled peer: alive, not reading, not closing
 				return
 			}
 			s.stalled = true
@@ -819,6 +921,18 @@ func (s *sink) connCount() int {
 	s.mu.Lock()
 	defer s.mu.Unlock()
 	return s.nconn
+}
+
+// unread: connections that may still deliver frames, not counting the newest one (the sender's current connection): a
+// connection the sender gave up gracefully keeps delivering what the kernel had accepted until its reader sees EOF
+func (s *sink) staleOpen() int {
+	s.mu.Lock()
+	defer s.mu.Unlock()
+	n := s.nconn - s.ended - 1
+	if n < 0 {
+		n = 0
+	}
+	return n
 }
 
 func (s *sink) frameCount() int {
@@ -854,11 +968,14 @@ func runL2(seed uint64, idx int, o *out, tier string) {
 	// The scenario rotates with the live-trial index so that every run of >= 128 cases covers all of them several times.
 	// 6 the upstream stops reading WITHOUT closing (stalled): the sender's write deadline (WriteTimeout, 3 s here) must end the
 	//   blocked write so that it reconnects and forwards what it holds.
-	scen := []int{0, 4, 1, 5, 2, 4, 6, 3, 4, 1, 5, 2, 0, 4, 5, 6}[(idx/8)%16]
+	// 7 a sender's address pool holds dead addresses (connection refused) and one live upstream: reconnect must go round the
+	//   pool (addressPool.pick) and reach the live one.
+	scen := []int{0, 4, 1, 5, 2, 7, 6, 3, 4, 1, 5, 2, 7, 4, 5, 6}[(idx/8)%16]
 	o.Stat(fmt.Sprintf("l2.scenario.%d", scen), 1)
 	cfg := balancer.EgressConfig{HostTag: hostTag, ReconnectDelay: 50 * time.Millisecond, DialTimeout: 5 * time.Second}
 	var e *balancer.Egress
 	var sinks [2]*sink
+	descPool := ""
 	var key string
 	mkSinks := func() {
 		for i := range sinks {
@@ -880,7 +997,33 @@ func runL2(seed uint64, idx int, o *out, tier string) {
 	if scen == 6 {
 		cfg.WriteTimeout = stallWriteTimeout
 	}
+	var deadFds []int
+	defer func() {
+		for _, fd := range deadFds {
+			_ = syscall.Close(fd)
+		}
+	}()
+	livePos := 0
 	switch scen {
+	case 7:
+		// dead = a TCP socket bound to a loopback port but not listening: connecting is refused at once and nobody else can take the port
+		nDead := r.Range(1, 3)
+		livePos = r.Range(0, nDead) // 0 = [live, dead…] (control), otherwise dead addresses come first
+		if (idx/8)%16 == 5 {
+			livePos = nDead // one of the two trials of a rotation always has the live upstream last
+		}
+		var prim []string
+		for k := 0; k <= nDead; k++ {
+			if k == livePos {
+				prim = append(prim, sinks[0].addr())
+				continue
+			}
+			addr, fd := deadAddr()
+			deadFds = append(deadFds, fd)
+			prim = append(prim, addr)
+		}
+		e = balancer.VerifNewLive(cfg, prim, []string{sinks[1].addr()})
+		descPool = fmt.Sprintf("primary pool of %d addresses, the live one at position %d, the others refuse connections", nDead+1, livePos)
 	case 1, 5, 6:
 		e = balancer.VerifNewLive(cfg, nil, nil) // no resolved address yet: both senders keep retrying
 	case 3:
@@ -1028,6 +1171,11 @@ func runL2(seed uint64, idx int, o *out, tier string) {
 		for sinks[0].connCount() < 2 && time.Now().Before(waitRe) {
 			time.Sleep(10 * time.Millisecond)
 		}
+	case 7:
+		k := []int{r.Range(1, 5), r.Range(6, thr-1), r.Range(thr, 2*thr)}[r.Pick(2, 2, 1)]
+		desc = append(desc, descPool, fmt.Sprintf("burst=%d", k))
+		burst(k)
+		lastPartial = k < thr
 	case 2:
 		k := r.Range(thr, 3*thr)
 		desc = append(desc, fmt.Sprintf("burst=%d reset", k))
@@ -1098,12 +1246,16 @@ func runL2(seed uint64, idx int, o *out, tier string) {
 	}
 
 	switch scen {
-	case 0, 1, 3:
+	case 0, 1, 3, 7:
 		// every accepted packet must arrive; dropped ones (scenario 1) are exactly those the counters and the report announce
 		lastPush := pushes[len(pushes)-1].at
 		deadline := lastPush.Add(timerBudget)
 		if scen == 1 {
 			deadline = deadline.Add(time.Second)
+		}
+		if scen == 7 {
+			deadline = deadline.Add(6 * time.Second) // expected: up to 3 refused dials 50 ms apart + the 1 s batch timer = ~1.2-1.6 s
+			o.NT("e2e-dead-addresses-in-pool")
 		}
 		var data map[uint32]frameRec
 		var reports int64
@@ -1147,7 +1299,11 @@ func runL2(seed uint64, idx int, o *out, tier string) {
 		if st.ForwardedPackets+st.DroppedPackets != uint64(len(pushes)) {
 			o.Viol("e2e-uncounted", "%d packets handed in, forwarded=%d dropped=%d", len(pushes), st.ForwardedPackets, st.DroppedPackets)
 		}
-		if uint64(len(data)) < st.ForwardedPackets {
+		if scen == 7 && uint64(len(data)) < st.ForwardedPackets {
+			// ---- direct oracle: bounded delay = about one second plus reconnection time, with a live upstream in the pool
+			o.Viol("e2e-no-failover", "%d of %d accepted packets not written upstream %v after the last packet arrived although the sender's address pool holds a live upstream (%d reconnect errors counted, connections accepted by the live upstream: %d; scenario 7: %s)",
+				st.ForwardedPackets-uint64(len(data)), st.ForwardedPackets, timerBudget+6*time.Second, st.ReconnectErrors, sinks[0].connCount(), strings.Join(desc, " ; "))
+		} else if uint64(len(data)) < st.ForwardedPackets {
 			// ---- direct oracle: bounded delay even if no further packets arrive
 			o.Viol("sender-sleeps-through-batch-timeout", "%d of %d accepted packets not written upstream %v after the last packet arrived (scenario %d: %s)",
 				st.ForwardedPackets-uint64(len(data)), st.ForwardedPackets, timerBudget, scen, strings.Join(desc, " ; "))
@@ -1205,7 +1361,7 @@ func runL2(seed uint64, idx int, o *out, tier string) {
 			// finished = the last accepted packet has arrived (streams are in order, so everything the upstream will ever get
 			// on that connection before it has been read already) and nothing new came for a moment (late duplicates)
 			_, lastIn := data[pushes[len(pushes)-1].seq]
-			if drained && lastIn && time.Since(quietSince) > 300*time.Millisecond {
+			if drained && lastIn && sinks[0].staleOpen() == 0 && sinks[1].staleOpen() == 0 && time.Since(quietSince) > 300*time.Millisecond {
 				break
 			}
 			time.Sleep(20 * time.Millisecond)
@@ -1308,6 +1464,22 @@ func inflightBound() int64 {
 		return 0
 	}
 	return v + 512*1024
+}
+
+// deadAddr reserves a loopback TCP port that refuses connections: a socket that is bound but never listens.
+func deadAddr() (string, int) {
+	fd, err := syscall.Socket(syscall.AF_INET, syscall.SOCK_STREAM, 0)
+	if err != nil {
+		panic(err)
+	}
+	if err = syscall.Bind(fd, &syscall.SockaddrInet4{Addr: [4]byte{127, 0, 0, 1}}); err != nil {
+		panic(err)
+	}
+	sa, err := syscall.Getsockname(fd)
+	if err != nil {
+		panic(err)
+	}
+	return fmt.Sprintf("127.0.0.1:%d", sa.(*syscall.SockaddrInet4).Port), fd
 }
 
 func caseRng(seed uint64, i int) *verifx.Rng {
